@@ -392,6 +392,9 @@ def main(argv=None):
         with open(os.path.join(VERIF, "evidence", "%s.json" % prop_id), "w") as f:
             json.dump(ev, f, indent=1, sort_keys=True)
 
+    if os.environ.get("VERIF_VERBOSE"):
+        for r, j in zip(results, jobs):
+            print("  shard %s %.1fs evals=%s %s" % (r.get("shard"), r.get("wall_s", -1), r.get("evaluations"), json.dumps(j[4])[:100]))
     for line in known_lines:
         print(line)
     print("%s tier=%s seed=%d evaluations=%d distinct_nontrivial=%d excused=%s wall=%.1fs" % (
